@@ -109,7 +109,7 @@ func (fe *FnExec) embFunc(owner, field string) string {
 		code := fe.typeCode("emb:" + owner + "." + field)
 		inv := "|embinv." + owner + "." + field + "|"
 		fe.addPrelude(key, "(declare-fun "+name+" (Int) Int)\n(declare-fun "+inv+" (Int) Int)\n"+
-			"(assert (forall ((x Int)) (! (and (= ("+inv+" ("+name+" x)) x) (= (tagof ("+name+" x)) "+fmt.Sprint(code)+") (not (= ("+name+" x) 0))) :pattern (("+name+" x)))))")
+			"(assert (forall ((x Int)) (! (and (= ("+inv+" ("+name+" x)) x) (= (tagof ("+name+" x)) "+fmt.Sprint(code)+") (= (birth ("+name+" x)) (birth x)) (not (= ("+name+" x) 0))) :pattern (("+name+" x)))))")
 	}
 	return name
 }
